@@ -44,14 +44,14 @@ func c09R1(c *Ctx) {
 			continue
 		}
 		n++
-		key := fmt.Sprintf("flip:%s:%s", c.fnName(s.fn), s.ch.Name())
+		key := fmt.Sprintf("flip:%s:%s", c.fnName(s.fn), fieldName(s.ch))
 		sf := c.stateFieldOf(pkgPathOf(s.fn))
 		// states in which the step goroutine can be blocked on this channel (from the explored paths)
 		prov := "plugin"
 		if pkgPathOf(s.fn) == pkgForeach {
 			prov = "foreach"
 		}
-		states, explored := c.statesAtReceive(prov, s.ch.Name(), sf.Name())
+		states, explored := c.statesAtReceive(prov, fieldName(s.ch), fieldName(sf))
 		if explored && !states["waiting_for_input"] {
 			c.ok(rule, key, c.instrPos(s.in), "the step goroutine never waits on this channel in state waiting_for_input (states at the receive: "+strings.Join(sortedKeys(states), ",")+"), so there is nothing to flip", true)
 			continue
@@ -94,7 +94,7 @@ func c09R2(c *Ctx) {
 	n := 0
 	isAvail := func(cond ssa.Value) bool {
 		f := firstFieldRead(cond)
-		return f != nil && strings.HasSuffix(f.Name(), "InputAvailable")
+		return f != nil && strings.HasSuffix(fieldName(f), "InputAvailable")
 	}
 	stepHeld := func(in ssa.Instruction) *types.Var {
 		must, _ := la.Held(in)
@@ -368,11 +368,11 @@ func c09R4(c *Ctx) {
 	}
 	// the counter field `name` is known to be 0 where the report is built: true edge of ==0 / <=0 / <1, false edge of !=0 / >0 / >=1
 	isCounter := func(v ssa.Value, name string) bool {
-		if f := firstFieldRead(v); f != nil && f.Name() == name {
+		if f := firstFieldRead(v); f != nil && fieldName(f) == name {
 			return true
 		}
 		if fi, ok := v.(*ssa.Field); ok {
-			if fv := fieldValVar(fi); fv != nil && fv.Name() == name {
+			if fv := fieldValVar(fi); fv != nil && fieldName(fv) == name {
 				return true
 			}
 		}
@@ -446,7 +446,14 @@ func c09R4(c *Ctx) {
 	}
 	// the retry: a goroutine whose body waits on a timer and calls checkForDeadlocks(retries-1)
 	okRetry := false
-	for _, a := range fn.AnonFuncs {
+	// the goroutines checkForDeadlocks starts (a closure, or a method when the closure was turned into one)
+	var retryBodies []*ssa.Function
+	c.eachInstrLogical(fn, func(r instrRef) {
+		if goI, ok := r.I.(*ssa.Go); ok {
+			retryBodies = append(retryBodies, c.CG().Callees(goI)...)
+		}
+	})
+	for _, a := range retryBodies {
 		hasTimer, recurses := false, false
 		eachInstr(a, func(r instrRef) {
 			if s, ok := r.I.(*ssa.Select); ok {
